@@ -45,6 +45,7 @@ CB_SRC = {
     # `|lex| cb28i(lex).filter(|_| false)`): what counts is the closure's value, not the helper's
     27: 'fn cb27<\'s>(lex: &mut L<\'s>) -> bool { zoo_rt::called(); sel(lex) == 0 } fn cb27i<\'s>(lex: &mut L<\'s>) -> bool { zoo_rt::called(); sel(lex) != 0 }',
     28: 'fn cb28<\'s>(_lex: &mut L<\'s>) -> Option<()> { zoo_rt::called(); None } fn cb28i<\'s>(lex: &mut L<\'s>) -> Option<()> { zoo_rt::called(); if sel(lex) == 0 { None } else { Some(()) } }',
+    29: 'fn cb29<\'s>(lex: &mut L<\'s>) -> bool { zoo_rt::called(); let r: &[u8] = AsRef::<[u8]>::as_ref(lex.remainder()); if !r.is_empty() { let n = if r[0] < 128 { 1 } else if r[0] < 224 { 2 } else if r[0] < 240 { 3 } else { 4 }; lex.bump(n.min(r.len())) } false }',
     23: 'fn cb23<\'s>(lex: &mut L<\'s>) -> Result<(), ZErr> { zoo_rt::called(); if sel(lex) == 0 { Err(ZErr::Default) } else { Ok(()) } }',
     24: 'fn cb24<\'s>(lex: &mut L<\'s>) -> logos::FilterResult<usize, ZErr> { zoo_rt::called(); match sel(lex) { 0 => logos::FilterResult::Skip, 1 => logos::FilterResult::Error(ZErr::Default), _ => logos::FilterResult::Emit(lex.slice().len()) } }',
 }
